@@ -10,8 +10,9 @@ fn per_type(f8: fn(bool) -> Vec<CellDef>, f16: fn(bool) -> Vec<CellDef>, f32: fn
     v
 }
 
-pub fn cells(prop: &str, t: bool) -> Vec<CellDef> {
+pub fn cells(prop: &str, t: bool, dir: &str) -> Vec<CellDef> {
     match prop {
+        "C11" => vpchecks::elem::c11(dir),
         "C01" => per_type(c01::<P8E0>, c01::<P16E1>, c01::<P32E2>, t),
         "C02" => per_type(c02::<P8E0>, c02::<P16E1>, c02::<P32E2>, t),
         "C03" => per_type(c03::<P8E0>, c03::<P16E1>, c03::<P32E2>, t),
@@ -27,7 +28,8 @@ pub fn cells(prop: &str, t: bool) -> Vec<CellDef> {
 
 fn main() {
     let cfg = Cfg::from_args();
-    let cells = cells(&cfg.prop, cfg.thorough());
+    let mut extra = Extra::default();
+    let cells = if cfg.prop == "C19" { vpchecks::rng::c19(cfg.thorough(), &mut extra) } else { cells(&cfg.prop, cfg.thorough(), &cfg.verif_dir) };
     if cells.is_empty() {
         eprintln!("vp_fixed: no cells for property {}", cfg.prop);
         std::process::exit(2);
@@ -37,5 +39,5 @@ fn main() {
         assumptions: vec!["rustc/LLVM compile the oracle and the crate correctly".into(), "the reference model (vp_oracle), cross-checked against an independent Python model at setup".into()],
         bound: format!("all cells complete ({} tier)", cfg.tier),
     };
-    std::process::exit(run_cells(&cfg, cells, Extra::default(), rep));
+    std::process::exit(run_cells(&cfg, cells, extra, rep));
 }
